@@ -1266,7 +1266,9 @@ pub fn analyse(
                 .last_fragment
                 .map(|f| f.max(last.written))
                 .unwrap_or(last.written);
-            if end_t > progress + timeout + 2 {
+            // (a later request of the task that was written less than the latency before the connection went down never reached
+            // the scripted outstation: the last request known here is then not the last one written)
+            if end_t > progress + timeout + 2 && !request_lost_in_flight {
                 fail(Violation::new(
                     "C16/outcome-later-than-response-timeout",
                     format!("{}", kind_name(&user.kind)),
